@@ -6,7 +6,8 @@ Sub-properties
             covariance inputs, derived observables, per-observable analysis parameters): symmetric, diag = dvalue^2,
             correlation has unit diagonal and entries in [-1,1], cov_ij = e_i corr_ij e_j, exact zero without a common
             ensemble / covariance input, cov(perm) = P cov P^T (list or ndarray argument); with smooth=E (2<E<n-1):
-            trace preserved, documented eigenvalue rule, symmetry, permutation equivariance.
+            trace preserved, documented eigenvalue rule, symmetry, permutation equivariance; a list with a never
+            analysed member must raise.
   single    all observables on one chain: correlation = Pearson correlation of the fluctuations on the common
             configurations, computed from the spec by configuration number (primary observables from the raw samples,
             derived ones through RefObs.combine); cov_ij = e_i e_j rho_ij; identical lists -> positive semi-definite.
@@ -50,6 +51,7 @@ ASSUMPTIONS = ['fluctuations of a primary observable = sample - mean over its ow
                '[-1,1], e_i corr e_j, permutation: 1e-12 relative to e_i e_j (sums of <= 200 products); Pearson: '
                '1e-12 + 1e-13 N (kappa_i + kappa_j), kappa = magnitude of the summed terms / largest fluctuation; PSD: '
                'smallest eigenvalue >= -1e-10 trace; Cholesky residual 1e-12 n cond(corr), cond <= 1e8; error band 1e-10',
+               'a list containing a never analysed observable must raise (docstring of covariance)',
                'smoothing rule from the docstring of covariance / hep-lat/9412087 as implemented: eigenvalues below the mean '
                'of the n-E smallest are raised to it, then all are divided by their mean']
 
@@ -86,7 +88,7 @@ def grid_sub(draw, grid, allow_stride=False):
     (except 'stride', only used for single-replica ensembles): full, window, mask, stride."""
     L = grid['len']
     pts = [grid['start'] + grid['gap'] * k for k in range(L)]
-    mode = draw(st.sampled_from(['full', 'full', 'window', 'mask', 'mask'] + (['stride'] if allow_stride else [])))
+    mode = draw(st.sampled_from(['full', 'window', 'window', 'mask', 'mask'] + (['stride'] if allow_stride else [])))
     if mode == 'window' and L > NMIN:
         a = draw(st.integers(0, L - NMIN))
         b = draw(st.integers(a + NMIN, L))
@@ -144,6 +146,9 @@ def nonzero(lo, hi):
     return st.builds(lambda s, x: s * (lo + x), st.sampled_from([1.0, -1.0]), gen.fl(0.0, hi - lo))
 
 
+MODES = st.integers(0, 9).map(lambda k: 'mixed' if k < 6 else ('nested' if k < 8 else 'identical'))
+
+
 @st.composite
 def obs_list_case(draw, tier, nmin, nmax, single=False, with_cov=True, idl_mode=None, derived=True, own='maybe',
                   distinct=False, lmin=8):
@@ -155,13 +160,13 @@ def obs_list_case(draw, tier, nmin, nmax, single=False, with_cov=True, idl_mode=
         lay = {e: {r: {'start': draw(st.one_of(st.integers(0, 3), st.integers(1, 2000))),
                        'gap': draw(st.sampled_from([1, 1, 2, 3])), 'len': draw(st.integers(lmin, max(lmin, lmax)))}}}
     else:
-        lay = draw(gen.base_layout(2, 3, lmin, max(lmin, lmax)))
+        lay = draw(gen.base_layout(3, 3, lmin, max(lmin, lmax)))
     K = draw(st.integers(1, 3))
     fields = {r: [draw(field_recipe(k == 0)) for k in range(K)] for e in sorted(lay) for r in sorted(lay[e])}
     pool = draw(gen.cov_pool(2)) if with_cov else {}
     n = draw(st.integers(nmin, nmax))
-    P = n if distinct else draw(st.integers(1, 4))
-    mode = idl_mode or draw(st.sampled_from(['identical', 'nested', 'mixed', 'mixed']))
+    P = n if distinct else max(draw(st.integers(1, min(n, 6))), draw(st.integers(1, min(n, 6))))
+    mode = idl_mode or draw(MODES)
     ens_all = sorted(lay)
     first = {}
     prims = []
@@ -175,14 +180,14 @@ def obs_list_case(draw, tier, nmin, nmax, single=False, with_cov=True, idl_mode=
             reps = sorted(lay[e])
             multi = len(reps) > 1
             g = lay[e][reps[0]]['gap']
-            if multi and mode != 'identical' and draw(st.floats(0, 1)) < 0.35:
+            if multi and mode != 'identical' and draw(st.integers(0, 19)) < 7:
                 reps = sorted(draw(st.lists(st.sampled_from(reps), min_size=1, max_size=len(reps) - 1, unique=True)))
             for r in reps:
                 if r in first and mode == 'identical':
                     il = list(first[r])
                 elif r in first and mode == 'nested':
                     il = draw(sub_of(first[r], g, multi))
-                elif r in first and draw(st.floats(0, 1)) < 0.3:
+                elif r in first and draw(st.integers(0, 9)) < 2:
                     il = list(first[r])
                 else:
                     il = draw(grid_sub(lay[e][r], allow_stride=not multi))
@@ -425,11 +430,12 @@ def entry_labels(spec, obs):
 
 @st.composite
 def matrix_case(draw, tier):
-    spec = draw(obs_list_case(tier, 2, 8))
+    spec = draw(obs_list_case(tier, 2, 8, with_cov=draw(st.integers(0, 2)) > 0))
     n = len(spec['entries'])
     spec['perm'] = list(draw(st.permutations(list(range(n)))))
     spec['perm_corr'] = draw(st.booleans())
     spec['as_array'] = draw(st.booleans())
+    spec['unanalysed'] = draw(st.integers(0, n - 1)) if draw(st.integers(0, 7)) == 0 else None
     spec['smooth'] = None
     if n >= 5 and draw(st.integers(0, 2)) == 0:
         spec['smooth'] = draw(st.integers(3, n - 2))
@@ -487,6 +493,17 @@ def matrix_oracle(spec):
                         'original order and %r after the permutation %r' % ('correlation' if flag else 'covariance', p[a], p[b], want[a, b], Mp[a, b], p))
     if p != sorted(p):
         labs.add('perm_nontrivial')
+    k = spec.get('unanalysed')
+    if k is not None:
+        # docstring of covariance: "The gamma method has to be applied first to all observables."
+        labs.add('unanalysed_member_must_raise')
+        fresh, _ = build_entry(pe, spec, spec['entries'][k], {})
+        lst2 = [fresh if t == k else o for t, o in enumerate(obs)]
+        try:
+            res = pe.covariance(lst2, correlation=flag)
+        except Exception:
+            res = None
+        require(res is None, 'covariance returned a matrix although observable %d of the list was never analysed' % k)
     return {'nt': nt, 'cls': sorted(labs)}
 
 
@@ -495,7 +512,7 @@ def matrix_oracle(spec):
 
 @st.composite
 def single_case(draw, tier):
-    mode = draw(st.sampled_from(['identical', 'nested', 'mixed', 'mixed']))
+    mode = draw(MODES)
     spec = draw(obs_list_case(tier, 2, 8, single=True, with_cov=False, idl_mode=mode))
     spec['mode'] = mode
     return spec
@@ -563,7 +580,7 @@ def single_oracle(spec):
                     'covariance of observables %d and %d is %r, expected e_i e_j rho = %r' % (i, j, C[i, j], e[i] * e[j] * rho))
             if nc <= 3:
                 labs.add('common_cfgs<=3')
-    if all(set(l[0][name]) == set(lays[0][0][name]) for l in lays):
+    if all(set(ly[0][name]) == set(lays[0][0][name]) for ly in lays):
         labs.add('all_identical:psd_checked')
         for M, nm in ((C, 'covariance'), (R, 'correlation')):
             S = 0.5 * (M + M.T)
@@ -590,12 +607,13 @@ def external_case(draw, tier):
         pool = {'sys': {'cov': [[draw(gen.fl(0.05, 2.0))]], 'means': [draw(gen.fl(-2, 2))]}}
     n = draw(st.integers(2, 8))
     entries = []
+    comp = st.one_of(nonzero(0.05, 2.0), st.sampled_from([0.0, 1.0, -1.0]))      # no denormal gradients: their squares underflow
     for k in range(n):
-        cov = draw(gen.cov_part(pool, 0.6))
-        if not cov:
-            nm = draw(st.sampled_from(sorted(pool)))
-            cov = [{'name': nm, 'cov': pool[nm]['cov'], 'means': pool[nm]['means'],
-                    'grad': [draw(gen.fl(-2, 2)) for _ in pool[nm]['means']]}]
+        use = [nm for nm in sorted(pool) if draw(st.integers(0, 9)) < 6]
+        if not use:
+            use = [draw(st.sampled_from(sorted(pool)))]
+        cov = [{'name': nm, 'cov': pool[nm]['cov'], 'means': pool[nm]['means'], 'grad': [draw(comp) for _ in pool[nm]['means']]}
+               for nm in use]
         j = draw(st.integers(0, len(cov) - 1))
         if all(g == 0.0 for g in cov[j]['grad']):
             cov[j]['grad'][0] = draw(nonzero(0.1, 2.0))
@@ -605,7 +623,6 @@ def external_case(draw, tier):
 
 def external_oracle(spec):
     import pyerrors as pe
-    np_ = np
     obs, J = [], []
     for ent in spec['entries']:
         o = None
@@ -616,7 +633,7 @@ def external_oracle(spec):
             v += math.fsum(g * m for g, m in zip(cv['grad'], cv['means']))
         f, df = EXT_FN[ent['fn']]
         if ent['fn'] == 'exp':
-            o = np_.exp(o / 10.0)
+            o = np.exp(o / 10.0)
         elif ent['fn'] == 'cube':
             o = o + o ** 3 / 3.0
         o.gamma_method()
@@ -652,7 +669,7 @@ def external_oracle(spec):
         for j in range(i):
             if not (set(J[i]) & set(J[j])):
                 labs.add('pair_without_common_input')
-                require(C[i, j] == 0.0 and R[i, j] == 0.0, 'observables %d and %d share no covariance input but cov = %r' % (i, j, C[i, j]))
+                require(abs(C[i, j]) <= 1e-14 * ee[i, j] and abs(R[i, j]) <= 1e-14, 'observables %d and %d share no covariance input but cov = %r' % (i, j, C[i, j]))
     p = [int(k) for k in spec['perm']]
     flag = bool(spec['perm_corr'])
     Mp = check_shape(pe.covariance([obs[k] for k in p], correlation=flag), n, 'matrix of the permuted list')
@@ -731,7 +748,8 @@ KEYS = ['a', 'b', 'c', 'B', 'A', 'a10', 'a2', 'ab', 'Z_1', 'ens3', 'x|1', '0', '
 
 @st.composite
 def sortcorr_case(draw, tier):
-    keys = draw(st.lists(st.sampled_from(KEYS), min_size=1, max_size=5, unique=True))
+    nk = draw(st.sampled_from([3, 2, 4, 5, 3, 4, 1, 5]))
+    keys = draw(st.lists(st.sampled_from(KEYS), min_size=nk, max_size=nk, unique=True))
     if draw(st.integers(0, 3)) == 0:
         lens = [draw(st.integers(1, 2)) for _ in keys]
         while sum(lens) < 2:
@@ -843,12 +861,14 @@ def errband_oracle(spec):
         gv = np.array(g(vals, xv), dtype=float)
         terms = np.outer(gv, gv) * C
         var = float(gv @ C @ gv)
-        if not var > 1e-8 * float(np.sum(np.abs(terms))):
+        tsum = float(np.sum(np.abs(terms)))
+        if not var > 1e-6 * tsum:
             labs.add('point_not_judged:cancellation')
             continue
         judged += 1
         want = math.sqrt(var)
-        require(np.isfinite(got[k]) and abs(got[k] - want) <= 1e-10 * want, 'error band at x=%r is %r, sqrt(g^T cov(beta) g) = %r (model %s)'
+        # rounding of the gradient (autograd vs. closed form) enters amplified by the cancellation sum|terms| / var
+        require(np.isfinite(got[k]) and abs(got[k] - want) <= (1e-10 + 1e-14 * tsum / var) * want, 'error band at x=%r is %r, sqrt(g^T cov(beta) g) = %r (model %s)'
                 % (xv, float(got[k]), want, spec['model']))
     if judged == 0:
         raise Skip('variance cancels at every sample point')
